@@ -214,3 +214,63 @@ func H_C16_fn_other() {
 	vCheckAgainstRef("C16 fn (Var/Map/Url)", err, r)
 	vReach("end")
 }
+
+// the outermost type recurs in the graph: an unscoped rule set still applies to the outermost value only
+type vONode struct {
+	A    string   `valid:"r1"`
+	Next *vONode  `valid:"exist"`
+	Kids []vONode `valid:"exist"`
+}
+
+func H_C16_recursive() {
+	vUNoFail = true
+	known := vGlobalRules()
+	leaf := &vONode{A: vStr("leaf")}
+	o := &vONode{A: vStr("A"), Next: &vONode{A: "n", Next: leaf}, Kids: []vONode{{A: vStr("kid")}}}
+	rm := vC16RMs[2+vndChoice("rm", 3)]
+	r := vNewRef()
+	r.global = known
+	var err error
+	if vndBool("scoped") {
+		err = NewVStruct().SetRule(vCopyRM(rm), o).Valid(o)
+		r.scoped = map[reflect.Type]RM{reflect.TypeOf(vONode{}): rm}
+	} else {
+		err = Struct(o, vCopyRM(rm))
+		r.unscoped = rm
+	}
+	r.top(o)
+	vCheckAgainstRef("C16 recursive type", err, r)
+	vReach("end")
+}
+
+// per-call and global functions whose names collide with the walker's own rule names
+type vOBuiltin struct {
+	A string `valid:"required"`
+	B string `valid:"exist"`
+	C string `valid:"either=1"`
+	D string `valid:"either=1"`
+	E int    `valid:"botheq=2"`
+	F int    `valid:"botheq=2"`
+}
+
+func H_C16_fn_builtin_names() {
+	vUNoFail = true
+	o := &vOBuiltin{A: vStr("A"), B: "b", C: "c", D: vStr("D"), E: 1, F: vndInt("F")}
+	r := vNewRef()
+	r.local, r.global = map[string]bool{}, map[string]bool{}
+	r.localTag, r.globalTag = map[string]string{}, map[string]string{}
+	fns := Name2FnMap{}
+	name := []string{Required, Exist, Either, BothEq}[vndChoice("name", 4)]
+	if vndBool("global") {
+		SetCustomerValidFn(name, vURule("G-"+name))
+		r.global[name], r.globalTag[name] = true, "G-"+name
+	}
+	if vndBool("local") {
+		fns[name] = vURule("L-" + name)
+		r.local[name], r.localTag[name] = true, "L-"+name
+	}
+	err := StructForFns(o, nil, fns)
+	r.top(o)
+	vCheckAgainstRef("C16 function named like a built-in rule", err, r)
+	vReach("end")
+}
